@@ -15,7 +15,7 @@ ID = "C08"
 RULE = (
     "Hypothesis draws documents (all references resolve by construction) with sharing patterns: up to 5 gradients "
     "(href templates before/after their users) used by visible, invisible (opacity 0 / display none / fill none), "
-    "transformed and untransformed shapes; id'd shapes and groups instanced 0-4 times by use; id'd shapes that are "
+    "transformed and untransformed shapes, as fill and as stroke paint; opacities whose product rounds to 0; roots without viewBox; id'd shapes and groups instanced 0-4 times by use; id'd shapes that are "
     "stroked (split in two paths); ids that collide with generated ones (g_0, grad1_0, nested-svg-viewport-0); nested "
     "svg with overflow hidden; clip ids shared by several elements. Oracle (validity predicate on the serialised "
     "output, stdlib parser): ids unique; every url(#x) in fill (attribute or style) names a gradient child of defs; every "
@@ -62,7 +62,7 @@ def analyse(out: str):
 def check_doc(case) -> Result:
     r = Result()
     feat = case.get("feat", [])
-    r.classes = tuple(f for f in feat if f.startswith("family:") or f in ("use", "gradient-fill", "gradient-href", "id-collision", "invisible-leaf"))
+    r.classes = tuple(f for f in feat if f.startswith("family:") or f in ("use", "gradient-fill", "gradient-href", "gradient-stroke", "id-collision", "invisible-leaf", "root-no-viewbox", "fading-group") or f.startswith("twin:"))
     try:
         out = SVG.fromstring(case["svg"]).topicosvg().tostring()
     except Exception as e:
@@ -87,7 +87,39 @@ def _collide_hook(draw, cx, root):
 
 @st.composite
 def c08_case(draw):
-    root, feat = draw(families.any_document_ast(["gradient", "gradient-many", "gradient+stroke", "stroke", "structural", "mixed"]))
+    root, feat = draw(families.any_document_ast(["gradient", "gradient-many", "gradient+stroke", "stroke", "structural", "mixed", "cascade"]))
+    if draw(st.integers(0, 5)) == 0:
+        # "fading" group: opacities that are individually visible but whose product rounds to 0, next to content that
+        # is invisible by itself - the group is first kept, then loses children to pruning and is dissolved
+        groups = []
+
+        def walk(n, in_defs):
+            for c in n["c"]:
+                if c["tag"] == "g" and not in_defs and any(k["tag"] in docs._SHAPE_TAGS for k in c["c"]):
+                    groups.append(c)
+                if not c["tag"].startswith("#"):
+                    walk(c, in_defs or c["tag"] in ("defs", "clipPath"))
+
+        walk(root, False)
+        if groups:
+            g = groups[draw(st.integers(0, len(groups) - 1))]
+            g["s"].pop("opacity", None)
+            g["a"]["opacity"] = draw(st.sampled_from(["0.02", "0.03", "0.01"]))
+            leaves = [k for k in g["c"] if k["tag"] in docs._SHAPE_TAGS]
+            for j, k in enumerate(leaves):
+                k["s"].pop("opacity", None)
+                if j == 0 or draw(st.booleans()):
+                    k["a"]["opacity"] = draw(st.sampled_from(["0.02", "0.03", "0.01"]))
+            if len(g["c"]) < 2 or draw(st.booleans()):
+                g["c"].insert(draw(st.integers(0, len(g["c"]))), docs.node("rect", {"width": "10", "height": "10", draw(st.sampled_from(["fill", "display"])): "none"}))
+            feat = feat + ["fading-group"]
+    r = draw(st.integers(0, 9))
+    if r <= 1:
+        # a root without viewBox (r == 0: without any size at all, r == 1: width/height instead) is accepted too
+        vb = root["a"].pop("viewBox").split()
+        if r == 1:
+            root["a"]["width"], root["a"]["height"] = vb[2], vb[3]
+        feat = feat + ["root-no-viewbox"]
     # id collisions: rename existing ids to names picosvg likes to generate
     if draw(st.integers(0, 2)) == 0:
         text = docs.serialize(root, root=True)
